@@ -37,7 +37,8 @@ type c10Rig struct {
 	remuxer *remux.Rtmp2MpegtsRemuxer
 	muxer   *hls.Muxer
 	hasVideo bool
-	patpmt   []byte // what the remuxer announced last
+	patpmt   []byte // what the remuxer announced last (private copy)
+	patpmtGiven []byte // the slice as handed over (logic.Group and hls.Muxer keep it)
 	keepGiven bool
 	given, givenCopy [][]byte
 
@@ -56,6 +57,7 @@ type c10Rig struct {
 
 func (r *c10Rig) OnPatPmt(b []byte) {
 	r.patpmt = append([]byte(nil), b...)
+	r.patpmtGiven = b
 	r.muxer.FeedPatPmt(b)
 }
 
